@@ -42,3 +42,10 @@ pub proof fn lemma_div_ge(size: int, k: int)
     requires size >= k * 4,
     ensures size / 4 >= k,
 {}
+
+/// add_layout(array of t Words, b) with b aligned to 1 or W and providing k Words: W t + |b| bytes, at least (t + k) Words
+pub proof fn lemma_layout_sum_arith(t: int, bsz: int, bal: int, k: int)
+    requires 0 <= t, 0 <= bsz, bal == 1 || bal == 4, k <= 0 || bsz >= k * 4,
+    ensures (t * 4) + ((-(t * 4)) % bal) + bsz == t * 4 + bsz,
+        t + k <= 0 || t * 4 + bsz >= (t + k) * 4,
+{}
